@@ -37,7 +37,7 @@ using mpt::metatype;
 
 const char *mc_id = "C15";
 const char *mc_rule = "job 'refcount': all raise/lower sequences (C and C++ entry points) from counter presets 0,1,2,MAX-1,MAX; other jobs: BFS over all histories "
-                      "(canonical-state dedupe) of new/addref/unref/clone/assign-through-conversion/reference-traits/reference<T>/array-clone/detach/defer "
+                      "(canonical-state dedupe) of new/addref/unref/clone/assign-through-conversion/reference-traits/reference<T>/array-clone/detach/array-set,slice,insert,append/defer "
                       "operations over <=3 handle slots and <=3 objects of the job's object kind(s), every reached state drained to quiescence; "
                       "nontrivial = distinct transitions that drop or replace a held reference, act on a shared object (count>1) or hit a counter limit";
 
@@ -1121,7 +1121,6 @@ static bool configure(const std::string &job, Tier tier)
 
 void mc_jobs(Tier t, std::vector<std::string> &jobs)
 {
-	if (getenv("C15_ONLY")) { jobs.push_back(getenv("C15_ONLY")); return; }   // DEV-ONLY
 	jobs.push_back("refcount");
 	jobs.push_back("buffer");
 	jobs.push_back("buffer:typed");
